@@ -193,6 +193,8 @@ BENIGN = [
     {"id": "B-extract-helper-method-push", "edits": [E(INFRA, "        self.write(obs, offset=0, inplace=inplace)\n        self.incr(1)", "        self._write_and_advance(obs, inplace)\n\n    def _write_and_advance(self, obs, inplace):\n        self.write(obs, offset=0, inplace=inplace)\n        self.incr(1)")]},
     {"id": "B-extract-helper-function-size", "edits": [E(INFRA, "        size = max(math.ceil(self.__duration / self.__dt) + self.__inclusive, 1)", "        size = _record_size(self.__duration, self.__dt, self.__inclusive)", 2),
                                                   E(INFRA, "def _unwind_ptr(", "def _record_size(duration, dt, inclusive):\n    return max(math.ceil(duration / dt) + inclusive, 1)\n\n\ndef _unwind_ptr(")]},
+    {"id": "B-positional-vs-keyword-arguments", "edits": [E(INFRA, "        self.write(obs, offset=0, inplace=inplace)\n        self.incr(1)", "        self.write(obs, 0, inplace)\n        self.incr()"),
+                                                      E(INFRA, "            self.decr(1)\n            return self.read(0)", "            self.decr(pos=1)\n            return self.read(offset=0)")]},
     {"id": "B-helper-commuted", "edits": [E(INFRA, "return (pointer - int(offset)) % size", "return (-int(offset) + pointer) % size")]},
     {"id": "B-push-temp", "edits": [E(INFRA, "        self.write(obs, offset=0, inplace=inplace)\n        self.incr(1)", "        zero = 0\n        self.write(obs, offset=0, inplace=inplace)\n        _ = self.incr(1)")]},
     {"id": "B-lif-extract-temp", "edits": [E("neural/functional/neuron_dynamics.py", "    return rest_v + (voltages - rest_v - extvoltage) * decay + extvoltage", "    relaxed = (voltages - rest_v - extvoltage) * decay\n    return extvoltage + rest_v + relaxed")]},
